@@ -524,6 +524,20 @@ def sweep_c09(tier, seed):
     failures += [dict(x, what="C09/net_is_signed_rule/" + x["what"].split("/", 1)[1]) for x in f8 if x["what"].startswith("C08/MSTDP/signal_scaled_sum") or x["what"].endswith("/per_cell")]
     failures += [x for x in f8 if "per_cell_hyperparameters" in x["what"] and x not in failures]
     cases = n8
+    # the delay-adjusted rules split into potentiating / depressing parts by the PER-CELL learning-rate signs as well
+    from inferno.learn import DelayAdjustedSTDPD
+
+    rnd2 = random.Random(seed + 11)
+    for _ in range(2 if tier == "quick" else 10):
+        pre, post = rand_trains(rnd2, 12, 1, 3, 2, 0.35)
+        for lp, ln in ((0.5, -0.4), (-0.5, 0.4), (0.5, 0.3), (-0.5, -0.3)):
+            for cls, names, vals, par in ((DelayAdjustedSTDP, ["lr_pos", "lr_neg", "tc_pos", "tc_neg"], [lp, ln, 15.0, 11.0], "weight"), (DelayAdjustedSTDPD, ["lr_neg", "lr_pos", "tc_neg", "tc_pos"], [ln, lp, 11.0, 15.0], "delay")):
+                cases += 1
+                f = per_cell_equivalence(cls, names, vals, pre, post, lambda tr, t: tr(), maxdelay=2.0, param=par)
+                if f is not None:
+                    f = dict(f, what=f["what"].replace("C18/", "C09/"))
+                    if not any(x["what"] == f["what"] for x in failures):
+                        failures.append(f)
     for param in ("weight", "bias", "delay"):
         for above in (True, False):
             cases += 1
